@@ -1279,20 +1279,20 @@ class Driver(object, metaclass=DriverMetaclass):
                 if meta['equals'] is not None:
                     con_val -= meta['equals']
                 else:
-                    lower_viol_idxs = np.where(con_val < meta['lower'])[0]
-                    upper_viol_idxs = np.where(con_val > meta['upper'])[0]
-                    non_viol_idxs = np.where((con_val >= meta['lower'])
-                                             & (con_val <= meta['upper']))[0]
-                    con_val[lower_viol_idxs] -= meta['lower']
-                    con_val[upper_viol_idxs] -=  meta['upper']
-                    con_val[non_viol_idxs] = 0.0
+                    # elementwise so that array-valued lower/upper bounds are handled
+                    lower = meta['lower']
+                    upper = meta['upper']
+                    con_val[:] = np.where(con_val < lower, con_val - lower,
+                                          np.where(con_val > upper, con_val - upper, 0.0))
+
+                # The violations were computed in model units. A violation is a distance,
+                # so driver scaling multiplies it by the scaler (the adder does not apply).
+                if driver_scaling:
+                    scaler = meta['total_scaler']
+                    if scaler is not None:
+                        con_val *= scaler
 
             con_dict[name] = con_vec[name].copy()
-
-        # If we computed violations, those were unscaled.
-        # Now scale them.
-        if driver_scaling and viol:
-            self._autoscaler.apply_constraint_scaling(con_vec)
 
         return con_dict
 
